@@ -955,7 +955,7 @@ def check_coscript(ops, rc, out, err):
 def coroutine_stream(ctx, tag, extra):
     binary = build_driver(ctx, tag, extra, src=COHARNESS, name="gccodriver")
     rng = ctx.rng
-    scripts = [gen_coscript(rng, rng.choice([10, 25, 60])) for _ in range(ctx.scale(40, 1200))]
+    scripts = [gen_coscript(rng, rng.choice([10, 25, 60])) for _ in range(ctx.scale(40, 800))]
 
     def one(ops):
         rc, out, err = vlib.sh([binary], input="\n".join(ops) + "\n", timeout=120)
@@ -1023,7 +1023,7 @@ def correspond(ctx):
         builds.append(("release", ["--release"], 1.0))
         builds.append(("asan", ["--cflags=-fsanitize=address -fno-omit-frame-pointer"], 0.125))
     rng = ctx.rng
-    nh = ctx.scale(160, 3000)
+    nh = ctx.scale(160, 2200)
     hists = []
     corpus_dir = os.path.join(vlib.VERIF, "corpus", ID)
     if os.path.isdir(corpus_dir):
